@@ -11,11 +11,13 @@ package common
 // inR: the pixel (int(x), int(y)) is inside the image (truncation toward zero)
 //@ pred inR(x real, y real, w int, h int) = -1.0 < x && x < real(w) && -1.0 < y && y < real(h)
 //@ pred evenIdx(i int, n int) = 0 <= i && i % 2 == 0 && i + 1 < n
+// fin: within the range where float64 -> int conversion is exact truncation
+//@ pred fin(v real) = -1000000000.0 < v && v < 1000000000.0
 
 //@ func GridSampler_checkAndNudgePoints(image *gozxing.BitMatrix, points []float64) (e error)
 //@   property C19 C06
 //@   requires image != nil && gozxing.wfBM(image) && len(points) % 2 == 0
-//@   requires forall i int :: 0 <= i && i < len(points) ==> -1000000000.0 < points[i] && points[i] < 1000000000.0
+//@   requires forall i int :: evenIdx(i, len(points)) ==> fin(points[i]) && fin(points[i+1])
 //@   ensures e != nil ==> implements(e, gozxing.NotFoundException)
 //@   ensures forall i int :: 0 <= i && i < len(points) ==> points[i] == old(points[i]) || inImg(points[i], i, image.width, image.height)
 //@   ensures e == nil && len(points) >= 2 && len(points) % 2 == 0 ==> 0 <= trunc(points[0]) && trunc(points[0]) < image.width && 0 <= trunc(points[1]) && trunc(points[1]) < image.height
@@ -29,7 +31,7 @@ package common
 //@   modifies points[*]
 //@   loop 0: invariant width == image.width && height == image.height && maxOffset == len(points) - 1 && 0 <= offset && offset % 2 == 0 && (offset == 0 ==> nudged)
 //@   loop 0: invariant forall i int :: 0 <= i && i < len(points) ==> points[i] == old(points[i]) || inImg(points[i], i, width, height)
-//@   loop 0: invariant forall i int :: 0 <= i && i < len(points) ==> -1000000000.0 < points[i] && points[i] < 1000000000.0
+//@   loop 0: invariant forall i int :: evenIdx(i, len(points)) ==> fin(points[i]) && fin(points[i+1])
 //@   loop 0: invariant offset >= 2 && len(points) % 2 == 0 ==> 0 <= trunc(points[0]) && trunc(points[0]) < width && 0 <= trunc(points[1]) && trunc(points[1]) < height
 //@   loop 0: invariant forall i int :: evenIdx(i, len(points)) && i < offset ==> inR(points[i], points[i+1], width, height)
 //@   loop 0: invariant forall i int :: offset <= i && i < len(points) ==> points[i] == old(points[i])
@@ -38,7 +40,7 @@ package common
 //@   loop 0: decreases len(points) - offset
 //@   loop 1: invariant width == image.width && height == image.height && -2 <= offset && offset <= len(points) - 2 && (len(points) - offset) % 2 == 0 && (offset == len(points) - 2 ==> nudged)
 //@   loop 1: invariant forall i int :: 0 <= i && i < len(points) ==> points[i] == old(points[i]) || inImg(points[i], i, width, height)
-//@   loop 1: invariant forall i int :: 0 <= i && i < len(points) ==> -1000000000.0 < points[i] && points[i] < 1000000000.0
+//@   loop 1: invariant forall i int :: evenIdx(i, len(points)) ==> fin(points[i]) && fin(points[i+1])
 //@   loop 1: invariant len(points) >= 2 && len(points) % 2 == 0 ==> 0 <= trunc(points[0]) && trunc(points[0]) < width && 0 <= trunc(points[1]) && trunc(points[1]) < height
 //@   loop 1: invariant offset <= len(points) - 4 && len(points) % 2 == 0 ==> 0 <= trunc(points[len(points)-2]) && trunc(points[len(points)-2]) < width && 0 <= trunc(points[len(points)-1]) && trunc(points[len(points)-1]) < height
 //@   loop 1: invariant forall i int :: evenIdx(i, len(points)) && inR(old(points[i]), old(points[i+1]), width, height) ==> points[i] == old(points[i]) && points[i+1] == old(points[i+1])
@@ -103,10 +105,10 @@ package common
 //@ func (p *PerspectiveTransform) TransformPoints(points []float64)
 //@   property C19
 //@   requires len(points) % 2 == 0
-//@   ensures forall k int :: 0 <= k && 2*k + 1 < len(points) ==> points[2*k] == numX(p, old(points[2*k]), old(points[2*k+1])) / den(p, old(points[2*k]), old(points[2*k+1])) && points[2*k+1] == numY(p, old(points[2*k]), old(points[2*k+1])) / den(p, old(points[2*k]), old(points[2*k+1]))
+//@   ensures forall k int :: evenIdx(k, len(points)) ==> points[k] == numX(p, old(points[k]), old(points[k+1])) / den(p, old(points[k]), old(points[k+1])) && points[k+1] == numY(p, old(points[k]), old(points[k+1])) / den(p, old(points[k]), old(points[k+1]))
 //@   modifies points[*]
 //@   loop 0: invariant maxI == len(points) - 1 && 0 <= i && i % 2 == 0 && i <= len(points)
-//@   loop 0: invariant forall k int :: 0 <= k && 2*k + 1 < len(points) && 2*k < i ==> points[2*k] == numX(p, old(points[2*k]), old(points[2*k+1])) / den(p, old(points[2*k]), old(points[2*k+1])) && points[2*k+1] == numY(p, old(points[2*k]), old(points[2*k+1])) / den(p, old(points[2*k]), old(points[2*k+1]))
+//@   loop 0: invariant forall k int :: evenIdx(k, len(points)) && k < i ==> points[k] == numX(p, old(points[k]), old(points[k+1])) / den(p, old(points[k]), old(points[k+1])) && points[k+1] == numY(p, old(points[k]), old(points[k+1])) / den(p, old(points[k]), old(points[k+1]))
 //@   loop 0: invariant forall j int :: i <= j && j < len(points) ==> points[j] == old(points[j])
 //@   loop 0: decreases len(points) - i
 
@@ -167,3 +169,39 @@ package common
 //@   ensures CharacterSetECI_Big5 != nil && len(CharacterSetECI_Big5.values) >= 1 && 0 <= CharacterSetECI_Big5.values[0] && CharacterSetECI_Big5.values[0] <= 30 && (forall k int :: 0 <= k && k < len(CharacterSetECI_Big5.values) ==> 0 <= CharacterSetECI_Big5.values[k] && CharacterSetECI_Big5.values[k] < 900)
 //@   ensures CharacterSetECI_GB18030 != nil && len(CharacterSetECI_GB18030.values) >= 1 && 0 <= CharacterSetECI_GB18030.values[0] && CharacterSetECI_GB18030.values[0] <= 30 && (forall k int :: 0 <= k && k < len(CharacterSetECI_GB18030.values) ==> 0 <= CharacterSetECI_GB18030.values[k] && CharacterSetECI_GB18030.values[k] < 900)
 //@   ensures CharacterSetECI_EUC_KR != nil && len(CharacterSetECI_EUC_KR.values) >= 1 && 0 <= CharacterSetECI_EUC_KR.values[0] && CharacterSetECI_EUC_KR.values[0] <= 30 && (forall k int :: 0 <= k && k < len(CharacterSetECI_EUC_KR.values) ==> 0 <= CharacterSetECI_EUC_KR.values[k] && CharacterSetECI_EUC_KR.values[k] < 900)
+
+// ---------------------------------------------------------------- grid sampling (C19): each cell is the pixel under its transformed centre
+// trX/trY: image coordinates of the centre of cell (cx,cy) (reals)
+//@ spec func trX(p *PerspectiveTransform, cx int, cy int) real = numX(p, real(cx) + 0.5, real(cy) + 0.5) / den(p, real(cx) + 0.5, real(cy) + 0.5)
+//@ spec func trY(p *PerspectiveTransform, cx int, cy int) real = numY(p, real(cx) + 0.5, real(cy) + 0.5) / den(p, real(cx) + 0.5, real(cy) + 0.5)
+
+// For transforms that send every cell centre to a finite point (|coordinate| < 1e9; float64 infinities and NaN are outside the
+// real-arithmetic model): on success every cell whose centre falls on a pixel of the image carries exactly that pixel.
+//@ func (s DefaultGridSampler) SampleGridWithTransform(image *gozxing.BitMatrix, dimensionX int, dimensionY int, transform *PerspectiveTransform) (r *gozxing.BitMatrix, e error)
+//@   property C19
+//@   opt realarith=uf
+//@   opt tier=thorough
+//@   requires image != nil && gozxing.wfBM(image) && transform != nil && dimensionX <= 100000000
+//@   requires forall cx int, cy int :: 0 <= cx && cx < dimensionX && 0 <= cy && cy < dimensionY ==> -1000000000.0 < trX(transform, cx, cy) && trX(transform, cx, cy) < 1000000000.0 && -1000000000.0 < trY(transform, cx, cy) && trY(transform, cx, cy) < 1000000000.0
+//@   ensures (dimensionX <= 0 || dimensionY <= 0) ==> e != nil
+//@   ensures e != nil ==> r == nil && implements(e, gozxing.NotFoundException)
+//@   ensures e == nil ==> r != nil && fresh(r) && gozxing.wfBM(r) && r.width == dimensionX && r.height == dimensionY
+//@   ensures e == nil ==> forall cx int, cy int :: gozxing.widx(r, cx, cy) && 0 <= cx && cx < dimensionX && 0 <= cy && cy < dimensionY && inR(trX(transform, cx, cy), trY(transform, cx, cy), image.width, image.height) ==> gozxing.mget(r, cx, cy) == gozxing.mget(image, trunc(trX(transform, cx, cy)), trunc(trY(transform, cx, cy)))
+//@   modifies nothing
+// the transformed points are the cell centres' images, and finite
+//@   assert call(GridSampler_checkAndNudgePoints,0): forall i int :: evenIdx(i, len(arg1)) ==> arg1[i] == trX(transform, i/2, y) && arg1[i+1] == trY(transform, i/2, y) && fin(arg1[i]) && fin(arg1[i+1])
+// the pixel that is read for cell (x/2, y) is the one under its transformed centre
+//@   assert call(Get,0): inR(trX(transform, x/2, y), trY(transform, x/2, y), image.width, image.height) ==> arg1 == trunc(trX(transform, x/2, y)) && arg2 == trunc(trY(transform, x/2, y))
+//@   loop 0: invariant bits != nil && fresh(bits) && fresh(bits.bits) && gozxing.wfBM(bits) && bits.width == dimensionX && bits.height == dimensionY && 0 <= y && y <= dimensionY && fresh(points) && len(points) == 2*dimensionX
+//@   loop 0: invariant forall cx int, cy int :: gozxing.widx(bits, cx, cy) && 0 <= cx && cx < dimensionX && 0 <= cy && cy < y && inR(trX(transform, cx, cy), trY(transform, cx, cy), image.width, image.height) ==> gozxing.mget(bits, cx, cy) == gozxing.mget(image, trunc(trX(transform, cx, cy)), trunc(trY(transform, cx, cy)))
+//@   loop 0: invariant forall cx int, cy int :: gozxing.widx(bits, cx, cy) && gozxing.inBM(bits, cx, cy) && cy >= y ==> !gozxing.mget(bits, cx, cy)
+//@   loop 0: decreases dimensionY - y
+//@   loop 1: invariant 0 <= x && x % 2 == 0 && x <= max && max == len(points) && len(points) == 2*dimensionX && fresh(points) && iValue == real(y) + 0.5
+//@   loop 1: invariant forall i int :: evenIdx(i, len(points)) && i < x ==> points[i] == real(i/2) + 0.5 && points[i+1] == iValue
+//@   loop 1: decreases max - x
+//@   loop 2: invariant 0 <= x && x % 2 == 0 && x <= max && max == len(points) && len(points) == 2*dimensionX && 0 <= y && y < dimensionY
+//@   loop 2: invariant bits != nil && fresh(bits) && fresh(bits.bits) && gozxing.wfBM(bits) && bits.width == dimensionX && bits.height == dimensionY
+//@   loop 2: invariant forall i int :: evenIdx(i, len(points)) && inR(trX(transform, i/2, y), trY(transform, i/2, y), image.width, image.height) ==> points[i] == trX(transform, i/2, y) && points[i+1] == trY(transform, i/2, y)
+//@   loop 2: invariant forall cx int, cy int :: gozxing.widx(bits, cx, cy) && 0 <= cx && cx < dimensionX && 0 <= cy && (cy < y || (cy == y && cx < x/2)) && inR(trX(transform, cx, cy), trY(transform, cx, cy), image.width, image.height) ==> gozxing.mget(bits, cx, cy) == gozxing.mget(image, trunc(trX(transform, cx, cy)), trunc(trY(transform, cx, cy)))
+//@   loop 2: invariant forall cx int, cy int :: gozxing.widx(bits, cx, cy) && gozxing.inBM(bits, cx, cy) && (cy > y || (cy == y && cx >= x/2)) ==> !gozxing.mget(bits, cx, cy)
+//@   loop 2: decreases max - x
